@@ -60,3 +60,11 @@ func SetContinueOnErrors(c bool) {
 	defaultOptsMutex.Lock()
 	defaultOpts.ContinueOnErrors = c
 }
+
+// currentDefaultOpts returns a copy of the global defaults, taken under the lock that guards their update.
+func currentDefaultOpts() Opts {
+	defer defaultOptsMutex.Unlock()
+	defaultOptsMutex.Lock()
+
+	return defaultOpts
+}
